@@ -22,6 +22,10 @@ SEEDS = [
     "start: [SOFT_KEYWORD] NAME NEWLINE | [NUMBER] [STRING] [OP] \"please\" NEWLINE\n",
     "start: SOFT_KEYWORD \"run\" | NAME SOFT_KEYWORD? NUMBER | [NAME] 'if' | STRING? OP? NEWLINE\n",
     "start: [t] NAME NEWLINE | [t] NUMBER NEWLINE\nt: SOFT_KEYWORD \"now\" | NAME 'if' | NUMBER STRING | OP OP\n",
+    # matching the end marker moves the parser past it like any other token
+    "start: NAME NEWLINE ENDMARKER | NAME NAME NEWLINE $\n",
+    "start: NAME '=' NUMBER TYPE_COMMENT NEWLINE | NAME '=' NUMBER [TYPE_COMMENT] NAME | NAME '=' NUMBER\n",
+    "start: doc doc | doc\ndoc: NAME NEWLINE $ | NUMBER NEWLINE ENDMARKER\n",
 ]
 # a generated rule with an explicit action that evaluates to a falsy value after consuming
 KF_GRAMMAR = "start: a NAME NEWLINE | NAME NAME NEWLINE\na: NAME { None }\n"
@@ -107,8 +111,12 @@ def run(chk: common.Check, tier: str):
                        # explicit actions that are truthy whatever their variables hold (the falsy-explicit-action case is the recorded finding)
                        action_pool=("[x, y]", "(x, 1)", "'lit'", "foo(x)", "mk(LOCATIONS)", "foo()"))
     texts = SEEDS + list(gramgen.gen_grammars(r, kn, 40 if tier == "quick" else 500))
+    import dataclasses
+    texts += list(gramgen.gen_grammars(r, dataclasses.replace(kn, terminals=("NAME", "SOFT_KEYWORD", "STRING", "OP", "NUMBER", '"soft"', "'kw'", "'+'", "NEWLINE")), 12 if tier == "quick" else 150))
     nin = 25 if tier == "quick" else 120
-    pairs = rm.krun(chk, "C05", texts, lambda t: A.inputs_upto(A.alphabet(t), 3, nin), configs=("q1", "q0", "v1", "v0"))
+    extra = ["x = 1 # type: int\n", "x = 1 # type: int\ny\n", "x = 1\n", "x = 1 y\n", "x\ny\n", "x y\n"]
+    pairs = rm.krun(chk, "C05", texts, lambda t: A.inputs_upto(A.alphabet(t), 3, nin) + (extra if t in SEEDS else []),
+                    configs=("q1", "q0", "v1", "v0"))
     for t, rj in pairs:
         for one in rj["results"]:
             for cfg, x in one["runs"].items():
@@ -133,7 +141,10 @@ def run(chk: common.Check, tier: str):
            ("start: &a NAME NEWLINE | NUMBER\na: NAME { 0 }\n", ["x\n", "1\n"], {"a"}),
            ("start: w=NAME !r NAME NEWLINE { [w] }\nr: n=NAME { False }\n", ["foo bar\n", "foo\n"], {"r"}),
            ("start: !(a) NAME NEWLINE\na: NAME NAME { None }\n", ["x y\n", "x\n"], {"a", "_tmp_1"}),
-           ("start: [a] NAME NAME NEWLINE\na: NAME { [] }\n", ["x y\n"], {"a"})]
+           ("start: [a] NAME NAME NEWLINE\na: NAME { [] }\n", ["x y\n"], {"a"}),
+           # a left-recursive leader whose seed is falsy: the growing wrapper itself puts the cursor back
+           ("start: [s] NUMBER NEWLINE\ns: s '+' NUMBER { 0 } | NUMBER { 0 }\n", ["1\n", "1 + 1\n", "1 1\n"], set()),
+           ("start: [s] NAME NEWLINE\ns: t '-' { [] } | NAME { None }\nt: s\n", ["x\n", "x -\n"], set())]
     fres = rm.run_traced([{"grammar": g, "inputs": ins, "configs": ["q1", "q0", "v1"]} for g, ins, _ in fam])
     for (g, ins, sites), rj in zip(fam, fres):
         for one in rj.get("results", []):
